@@ -47,7 +47,11 @@ func VerifC18_cumulative() {
 	k := keeper.NewKeeper(cdc, ss, log.NewNopLogger(), authtypes.NewModuleAddress("gov").String(), sk, nil, nil)
 	hasTracker := ndBool("hasTracker")
 	if hasTracker {
-		if err := k.Tracker.Set(ctx, types.StakeTracker{Amount: base}); err != nil {
+		// the tracking period may be running or over (its end is refreshed by the EndBlocker, not by transactions): the
+		// bound is against the recorded amount either way
+		exp := ndTime("periodEnd")
+		ctx = ctx.WithBlockTime(ndTime("now"))
+		if err := k.Tracker.Set(ctx, types.StakeTracker{Amount: base, Expiration: &exp}); err != nil {
 			panic(err)
 		}
 	}
